@@ -77,7 +77,7 @@ Print Assumptions C17_code_response_payload.
 
 (* ---- the code is the model (regenerated each run): the real Client.send_request on a symbolic clock inside / after the context managers
    (tools/symtrans.py, Gen/Fn_SendContext.v) - inside payload_override the frame sent is the override (constant / function of the request bytes), after it the request bytes again ---- *)
-From UDS Require Import Gen.Fn_SendContext Model.Services Proofs.Tie_send_common Proofs.Tie_send_flush Proofs.Tie_send_ctx.
+From UDS Require Import Gen.Fn_SendContext Model.Client Model.Services Proofs.Tie_send_common Proofs.Tie_send_flush Proofs.Tie_send_ctx.
 
 Theorem C17_code_send_request_ov_const_silence : forall cfg T P2 P2S now, timing cfg (Some T) P2 P2S ->
   fn_send_request_ov_const_silence T P2 P2S now = ret (obs_full (send_request cfg st_ov_const tp_req (-1) now [])).
